@@ -201,7 +201,7 @@ def generate_js(ops):
             continue
         body = open(path).read()
         if not ops or "jseqswap" in ops:
-            for m in re.finditer(r"([A-Za-z_][\w.]*(?:\[[\w.]+\])?) (===|!==) ('[^'\n]*'|[A-Za-z_][\w.]*|\d+)", body):
+            for m in re.finditer(r"([A-Za-z_][\w.]*(?:\[[\w.]+\])?) (===|!==) ('[^'\n]*'|[A-Za-z_][\w.]*(?:\[[\w.]+\])?(?![\w.\[(])|\d+(?![\w.]))", body):
                 new = body[: m.start()] + "%s %s %s" % (m.group(3), m.group(2), m.group(1)) + body[m.end() :]
                 muts.append(("jseqswap:%s:%d" % (rel, body.count("\n", 0, m.start()) + 1), rel, new, m.group(0)[:100]))
         if not ops or "jsifswap" in ops:
@@ -231,7 +231,11 @@ def generate_js(ops):
                 nm = m.group(1)
                 if len(re.findall(r"\b(?:const|let) %s\b" % nm, body)) != 1 or re.search(r"\.%s\b" % nm, body) or re.search(r"\b%s:" % nm, body) or re.search(r"[{,] *%s *[},]" % nm, body):
                     continue
-                new = re.sub(r"\b%s\b" % nm, nm + "R", body)
+                # never inside a string or template literal (a word in a message, a marker text)
+                parts = re.split(r"('[^'\n]*'|\"[^\"\n]*\"|`[^`]*`|/(?![*/ ])(?:[^/\n\\]|\\.)+/[gimsuy]*)", body)
+                if any(i % 2 == 1 and re.search(r"\b%s\b" % nm, part) for i, part in enumerate(parts)):
+                    continue
+                new = "".join(part if i % 2 == 1 else re.sub(r"\b%s\b" % nm, nm + "R", part) for i, part in enumerate(parts))
                 muts.append(("jsrename:%s:%s" % (rel, nm), rel, new, "const %s" % nm))
         if not ops or "jshoistcond" in ops:
             for m in re.finditer(r"^(\s*)if \(([^{}\n]{6,90})\) \{$", body, re.M):
